@@ -317,6 +317,12 @@ def finalize(agg, tier):
       mech = 'verdict-depends-on-context@%s' % check
       if check == 'CheckWeakECPrivateKey' and 'overreach-zone' in tag:
         mech = 'weak-ec-key-overreach-zone-depends-on-context'
+      elif check == 'CheckECKeySmallDifference' and (
+          'overreach-zone' in tag or 'structured-edge' in tag):
+        # the pair (2^32 - 1, 2^32 + r): r + 1 is above max_diff = 2^8 by
+        # construction unless r < 255; found only through the extra reach of
+        # a larger cached table (same root cause as F6)
+        mech = 'small-difference-overreach-zone-depends-on-context'
       elif check in ('CheckNonceMSB', 'CheckNonceCommonPrefix',
                      'CheckNonceCommonPostfix', 'CheckNonceGeneralized') and (
                          'biased' in tag):
